@@ -34,7 +34,7 @@ OMEGA_E = 7.2921159e-5
 LABELS = ts.SCALES
 _tables = None
 
-OPS = ["sgp4", "sgp4beta", "kepler", "j2", "keplernum", "cw", "keplernum-man", "cw-man", "none", "sun", "moon", "frames", "station", "ephem", "ephem-nodes", "events",
+OPS = ["sgp4", "sgp4beta", "kepler", "j2", "keplernum", "cw", "keplernum-man", "cw-man", "none", "sun", "moon", "frames", "station", "ephem", "ephem-nodes", "ephem-own", "events",
        "tle-text", "ccsds-opm", "ccsds-oem", "ccsds-man", "lambert", "ltan", "beta"]
 
 
@@ -286,6 +286,20 @@ def run_case(ctx, job, idx, rng, st):
             out[f"node{j - node_k}"] = ("vec", vec(eph.interpolate(q.date(l))))
         return out
 
+    # bounds at least 1 s away from every node of the 10 s table: neither a microsecond of relabelling nor the milliseconds of the
+    # known UT1 day-lookup mechanism can move a node across them
+    own_lo, own_hi = 10.0 * rng.randint(6, 20) + rng.uniform(1.0, 9.0), 10.0 * rng.randint(40, 87) + rng.uniform(1.0, 9.0)
+
+    def op_ephem_own(l, le):
+        # part of a 10 s table extracted with its own sampling (no step): which points lie between two INSTANTS does not depend
+        # on the labels of the bounds nor on the label of the table
+        o = cart_orbit(le, Kepler())
+        eph = o.ephem(start=epoch.date(le), stop=timedelta(seconds=900), step=timedelta(seconds=10))
+        pts = list(eph.iter(start=epoch.shifted(own_lo).date(l), stop=epoch.shifted(own_hi).date(l)))
+        t0 = epoch.date("UTC")
+        return {"count": ("text", str(len(pts))), "first": ("us", (pts[0].date - t0).total_seconds() * 1e6 if pts else -1.0),
+                "last": ("us", (pts[-1].date - t0).total_seconds() * 1e6 if pts else -1.0)}
+
     def op_events(l, le):
         o = cart_orbit(le, Kepler())
         start = epoch.shifted(min(0.0, off_s) if abs(off_s) < 2000 else 0.0)
@@ -356,7 +370,7 @@ def run_case(ctx, job, idx, rng, st):
         return {"beta": ("rad", float(beta(StateVector(cart, arg.date(l), "cartesian", "EME2000"), "Sun")))}
 
     ops = dict(zip(OPS, [op_sgp4, op_sgp4beta, op_kepler, op_j2, op_keplernum, op_cw, op_keplernum_man, op_cw_man, op_none, op_sun, op_moon, op_frames, op_station,
-                         op_ephem, op_ephem_nodes, op_events, op_tle_text, op_ccsds_opm, op_ccsds_oem, op_ccsds_man, op_lambert, op_ltan, op_beta]))
+                         op_ephem, op_ephem_nodes, op_ephem_own, op_events, op_tle_text, op_ccsds_opm, op_ccsds_oem, op_ccsds_man, op_lambert, op_ltan, op_beta]))
 
     # which instants does each operation hand to the library as labelled dates
     involved = {
@@ -365,14 +379,14 @@ def run_case(ctx, job, idx, rng, st):
     dates_of = {
         "sgp4": (["arg"], ["epoch"]), "sgp4beta": (["arg"], ["epoch"]), "kepler": (["arg"], ["epoch"]), "j2": (["arg"], ["epoch"]),
         "keplernum": (["short"], ["epoch"]), "cw": (["short"], ["epoch"]), "keplernum-man": (["man"], ["epoch"]), "cw-man": (["man"], ["epoch"]), "none": (["arg"], ["epoch"]), "sun": (["arg"], []), "moon": (["arg"], []),
-        "frames": (["arg"], []), "station": (["arg"], []), "ephem": (["epoch"], ["epoch"]), "ephem-nodes": (["epoch"], ["epoch"]), "events": (["epoch", "arg"], ["epoch"]),
+        "frames": (["arg"], []), "station": (["arg"], []), "ephem": (["epoch"], ["epoch"]), "ephem-nodes": (["epoch"], ["epoch"]), "ephem-own": (["epoch"], ["epoch"]), "events": (["epoch", "arg"], ["epoch"]),
         "tle-text": ([], ["epoch"]), "ccsds-opm": ([], ["epoch"]), "ccsds-oem": ([], ["epoch"]), "ccsds-man": (["arg"], ["epoch"]),
         "lambert": (["arrival"], ["epoch"]), "ltan": (["arg"], []), "beta": (["arg"], []),
     }
     eop_sensitive = {"frames", "station", "ltan", "sun", "beta"}
     lo_short, hi_short = min(0.0, short.mjd - epoch.mjd) * 86400 - 600, max(0.0, short.mjd - epoch.mjd) * 86400 + 600
     span_of = {  # operations that derive further dates from the ones they are given (start + k.step, bisection, extra steps)
-        "keplernum": (lo_short, hi_short), "cw": (lo_short, hi_short), "keplernum-man": (-1200.0, 1800.0), "cw-man": (-1200.0, 1200.0), "ephem": (0.0, 2400.0), "ephem-nodes": (0.0, 90.0), "events": (-2000.0, 6600.0 + 2000.0),
+        "keplernum": (lo_short, hi_short), "cw": (lo_short, hi_short), "keplernum-man": (-1200.0, 1800.0), "cw-man": (-1200.0, 1200.0), "ephem": (0.0, 2400.0), "ephem-nodes": (0.0, 90.0), "ephem-own": (0.0, 900.0), "events": (-2000.0, 6600.0 + 2000.0),
         "ccsds-oem": (0.0, 1200.0),
     }
 
